@@ -271,6 +271,19 @@ void World::opBuild(const Item& op)
         for (int i = 0; i < 4; ++i)
             bd.str[i] = textOf(id * 4 + i, static_cast<size_t>(std::min<int64_t>(std::max<int64_t>(0, op.get(keys[i], 0)), 2000)));
         bd.vendor = contentBytes(id ^ 0x77777777u, 0, v);
+        if (op.has("nul") && !is("C13"))
+        {
+            // (C20 runs only) bits 0-3: which strings end with a NUL of their own; bits 4-7: which carry one in the middle
+            const int64_t nm = op.get("nul");
+            for (int i = 0; i < 4; ++i)
+            {
+                if ((nm >> i) & 1)
+                    bd.str[i].push_back('\0');
+                if (((nm >> (4 + i)) & 1) && bd.str[i].size() > 2)
+                    bd.str[i][bd.str[i].size() / 2] = '\0';
+            }
+            probe("capture-module-string-with-nul");
+        }
     }
     else
     {
